@@ -310,6 +310,11 @@ func checkC09(c *Ctx, w *World) {
 			"every recorded state report reaches close(scRefs[sc].stateSignal) followed by its re-creation, skipped only when the connection has left the pool",
 			fmt.Sprintf("a state change of a pool member can go unsignalled (slot=%v every path=%v skipped only if nil=%v remade=%v)", slotOK, passes, skipOnlyNil, sameBlk))
 	}
+	// ---- premise checked by a sibling property, re-evaluated here: "every slot becomes READY ⇒ the waiting BIND call is
+	// handed its slot" is stated over the recorded state of the slot's connection — the record must follow the reports and
+	// survive the refresh swap (C04.pair), or a READY channel keeps its round-robin callers waiting
+	importPremises(c, w, "C04", checkC04, []string{"C04.pair"}, "C09.states")
+
 }
 
 // sameCritical: both instructions execute with the lock held and no release of it can occur between them.
